@@ -1,25 +1,21 @@
 (* the completeness statement unfolded once *)
 Theorem C06_u8_overflowing_add_complete_unfolded : forall a b,
   0 <= a < 2 ^ 8 -> 0 <= b < 2 ^ 8 ->
-  exists s' m',
-    vm_run CFG (honest CFG) 0 code_u8_overflowing_add 64 0
-           (init_st entry_u8_overflowing_add) (init_mem [RC0; a; b]) = Ok (s', m') /\
-    lookup (ap s' - 3) m' = Some (RC0 + 1) /\
-    (if a + b <? 2 ^ 8
-     then lookup (ap s' - 2) m' = Some 0 /\ lookup (ap s' - 1) m' = Some (a + b)
-     else lookup (ap s' - 2) m' = Some 1 /\ lookup (ap s' - 1) m' = Some (a + b - 2 ^ 8)).
+  outputs (vm_run CFG (honest CFG) 0 code_u8_overflowing_add 200 0
+                  (init_st entry_u8_overflowing_add) (init_mem [RC0; a; b])) 3
+  = Some [Some (RC0 + 1);
+          Some (if a + b <? 2 ^ 8 then 0 else 1);
+          Some (if a + b <? 2 ^ 8 then a + b else a + b - 2 ^ 8)].
 Proof.
   intros a b Ha Hb.
-  pose proof (u8_overflowing_add_complete a b Ha Hb) as H.
-  unfold uarith_post, run_honest, uadd in H.
-  destruct H as (s' & m' & H1 & H2 & H3).
-  exists s', m'. split; [exact H1|]. split; [exact H2|].
-  destruct (a + b <? 2 ^ 8); exact H3.
+  pose proof (u8_overflowing_add_complete a b Ha Hb ltac:(discriminate)) as H.
+  unfold run_outputs, sp_uarith, uadd in H. cbn [fst snd] in H.
+  destruct (a + b <? 2 ^ 8); exact H.
 Qed.
 
 (* non-vacuity / what the objects look like: 200 + 100 on u8 *)
 Example C06_example :
-  outputs (run_honest code_u8_overflowing_add entry_u8_overflowing_add 64 [RC0; 200; 100]) 3
+  outputs (run_honest code_u8_overflowing_add entry_u8_overflowing_add 200 [RC0; 200; 100]) 3
     = Some [Some (RC0 + 1); Some 1; Some 44]
   /\ eval Ops.OAdd (U 8) [200; 100] = Some (Panic [0x75385f616464204f766572666c6f77] (* the felt of the short string `u8_add Overflow` *))
   /\ eval Ops.ORem (Ops.I 8) [-128; -1] = Some (Success [0]).
